@@ -128,7 +128,7 @@ func detrestAZSuite(c *Ctx) {
 			c.Cmp("c06rest-az", fmt.Sprintf("c06rest azdim %d %d", compact, l), fmt.Sprintf("ok %d", azdetector.VerifGetDimension(compact == 1, l)))
 		}
 	}
-	n := c.Pick(700, 20000)
+	n := c.Pick(550, 20000)
 	for i := 0; i < n && c.TimeLeft(); i++ {
 		img := detrestAZGen(r, syms, c.Pick(110, 300))
 		bits := c06detBits(img.bm)
